@@ -115,3 +115,67 @@ ACT = {'NRTL': 'NRTL', 'UNIQUAC': 'UNIQUAC'}
 
 def act_text(ct):
     return ACT.get(ct, 'OtherModel')
+
+
+# ---------------------------------------------------------------- reification of call arguments
+class Reifier:
+    """collects symbolic arguments of a stubbed call and builds a Gallina template"""
+
+    def __init__(self):
+        self.syms = []
+
+    def num(self, x):
+        from sym import lift
+        self.syms.append(lift(x))
+        return '{%d}' % (len(self.syms) - 1)
+
+    def opt_num(self, x):
+        return 'None' if x is None else '(Some %s)' % self.num(x)
+
+    def composition(self, c):
+        if not isinstance(c, pv.Composition):
+            raise TraceEscape('a %s arrived where a Composition is expected' % type(c).__name__)
+        return '(Build_Composition N %s %s)' % (self.num(c.p), ctype_text(c.type))
+
+    def permeance(self, p):
+        if not isinstance(p, pv.Permeance):
+            raise TraceEscape('a %s arrived where a Permeance is expected' % type(p).__name__)
+        return '(Build_Permeance N %s %s)' % (self.num(p.value), units_text(p.units))
+
+    def opt_permeance(self, p):
+        return 'None' if p is None else '(Some %s)' % self.permeance(p)
+
+    def act(self, ct):
+        if not isinstance(ct, str):
+            raise TraceEscape('a %s arrived where the activity model string is expected' % type(ct).__name__)
+        return act_text(ct)
+
+
+from sym import TraceEscape  # noqa: E402
+
+UNITS_TXT = {'GPU': 'GPU', 'SI': 'SI', 'kg/(m2*h*kPa)': 'KG'}
+
+
+def units_text(u):
+    if not isinstance(u, str):
+        raise TraceEscape('non-string units')
+    return UNITS_TXT.get(u, '(OtherUnit 1)')
+
+
+def ctype_text(t):
+    if t == 'molar':
+        return 'Molar'
+    if t == 'weight':
+        return 'Weight'
+    raise TraceEscape('unknown composition type %r' % (t,))
+
+
+def app(template, syms, val):
+    """symbolic value standing for (a projection of) the result of a stubbed call"""
+    return Sym('app', (template, list(syms)), float(val))
+
+
+def sym_permeance(leaf, value, units='kg/(m2*h*kPa)'):
+    p = pv.Permeance(value=1.0, units=units)
+    p.value = V(leaf, value)
+    return p, '(Build_Permeance N %s %s)' % (leaf, units_text(units))
